@@ -20,4 +20,9 @@ def armi_ready():
         runLog.setVerbosity("error")
     except Exception:
         pass
+    if not os.environ.get("VERIF_ARMI_LOG"):
+        # armi's own error chatter (refusals are exercised on purpose) would drown the check's output
+        import logging
+
+        logging.disable(logging.CRITICAL)
     _done = True
